@@ -254,15 +254,35 @@ def estimate(b, boot=0, recycle=False):
         npr.randint = saved
 
 
-def pristine_results(kind, pool, boot, table=None):
-    """A results object of a real estimation that produced no file; cached per worker, handed out as a deep copy."""
+# how a results object came about: the optional fields of the raw results (gradient / Hessian / BHHH and everything
+# derived from them, initial and null log likelihood, bootstrap matrix) are present or absent accordingly
+HOWS = ['est', 'quick', 'quickboot', 'null']
+NO_DERIVATIVES = ('quick', 'quickboot')
+
+
+def pristine_results(kind, pool, boot, table=None, how='est'):
+    """A results object of a real estimation that produced no file; cached per worker, handed out as a deep copy.
+    how: 'est' = estimate(); 'quick' = quick_estimate() (no derivatives, no statistics); 'quickboot' = quick_estimate()
+    on an object that ran estimate(run_bootstrap=True) before (bootstrap matrix but no derivatives); 'null' = estimate()
+    after calculate_null_loglikelihood() (null-model statistics present)."""
     import copy
     import biogeme.results as res
-    key = (kind, pool, boot, table)
+    key = (kind, pool, boot, table, how)
     cache = _STATE.setdefault('results', {})
     if key not in cache:
         b, free, fixed = make_model(kind, pool, boot, table=table)
-        r = estimate(b, boot)
+        if how == 'est':
+            r = estimate(b, boot)
+        elif how == 'quick':
+            r = b.quick_estimate()
+        elif how == 'quickboot':
+            estimate(b, boot)
+            r = b.quick_estimate()
+        elif how == 'null':
+            b.calculate_null_loglikelihood({1: 1, 2: 1})
+            r = estimate(b, boot)
+        else:
+            raise ValueError(how)
         cache[key] = (r.data, free, fixed)
     raw, free, fixed = cache[key]
     return res.bioResults(copy.deepcopy(raw)), list(free), list(fixed)
@@ -344,9 +364,32 @@ TABLES_OF = [
 ]
 
 
-def compare_results(r1, r2, what, rec, case, keytail, expect_same_files=True):
-    """Oracle of part (i): two results objects must be indistinguishable.  Returns number of failed clauses."""
+def _lenient_diff(f, r1, r2, name, rec, text=False):
+    """Comparison for results objects without derivatives: an artefact that the library cannot produce for such an
+    object (the writer raises on the original) is outside the statement - counted; it must then be just as
+    unavailable after the round trip.  An artefact that is produced must be identical."""
+    out = []
+    for r in (r1, r2):
+        try:
+            out.append(('value', f(r)))
+        except Exception as e:
+            out.append(('raised', type(e).__name__))
+    (k1, v1), (k2, v2) = out
+    if k1 == 'raised' and k2 == 'raised':
+        rec.count(f'unavailable_without_derivatives:{name}')
+        return None if v1 == v2 else f'{name}: raises {v1} on the original, {v2} on the re-read object'
+    if k1 != k2:
+        return f'{name}: {k1} on the original ({v1!r:.80}), {k2} on the re-read object ({v2!r:.80})'
+    if text:
+        return None if v1 == v2 else _first_text_diff(v1, v2)
+    return deep_diff(v1, v2, name)
+
+
+def compare_results(r1, r2, what, rec, case, keytail, expect_same_files=True, lenient=False):
+    """Oracle of part (i): two results objects must be indistinguishable.  Returns number of failed clauses.
+    lenient (results objects without derivatives only): see _lenient_diff."""
     bad = 0
+    ck = (what, keytail, case.get('pool'), case.get('table'))
 
     def fail(clause, detail):
         nonlocal bad
@@ -355,26 +398,32 @@ def compare_results(r1, r2, what, rec, case, keytail, expect_same_files=True):
                       case, observed=detail)
 
     for name, f in TABLES_OF:
-        try:
-            d = deep_diff(f(r1), f(r2), name)
-        except Exception as e:
-            d = f'{name}: raised {type(e).__name__}: {e}'
-        rec.case((what, keytail, case.get('pool'), case.get('table'), name), (name, d), outcome=(name, d is None))
+        if lenient:
+            d = _lenient_diff(f, r1, r2, name, rec)
+        else:
+            try:
+                d = deep_diff(f(r1), f(r2), name)
+            except Exception as e:
+                d = f'{name}: raised {type(e).__name__}: {e}'
+        rec.case(ck + (name,), (name, d), outcome=(name, d is None))
         if d:
             fail('table:' + name, d)
     d1, d2 = dict(vars(r1.data)), dict(vars(r2.data))
     d = deep_diff(d1, d2, 'data')
-    rec.case((what, keytail, case.get('pool'), case.get('table'), 'raw'), ('raw', d), outcome=('raw', d is None))
+    rec.case(ck + ('raw',), ('raw', d), outcome=('raw', d is None))
     if d:
         field = re.sub(r'[^A-Za-z_].*', '', d.split("'")[1]) if "'" in d else 'structure'
         fail('field:' + field, d)
     for name, f in REPORTS:
-        try:
-            t1, t2 = f(r1), f(r2)
-            d = None if t1 == t2 else _first_text_diff(t1, t2)
-        except Exception as e:
-            d = f'raised {type(e).__name__}: {e}'
-        rec.case((what, keytail, case.get('pool'), case.get('table'), name), (name, d), outcome=(name, d is None))
+        if lenient:
+            d = _lenient_diff(f, r1, r2, name, rec, text=True)
+        else:
+            try:
+                t1, t2 = f(r1), f(r2)
+                d = None if t1 == t2 else _first_text_diff(t1, t2)
+            except Exception as e:
+                d = f'raised {type(e).__name__}: {e}'
+        rec.case(ck + (name,), (name, d), outcome=(name, d is None))
         if d:
             fail('report:' + name, d)
     return bad
@@ -400,9 +449,14 @@ def _part_i(task, rec):
     if thr_i:
         keytail += ',threshold=non-default'
         case['thr'] = thr_i
+    how = task.get('how') or 'est'
+    lenient = how in NO_DERIVATIVES
+    if how != 'est':
+        keytail += f',how={how}'
+        case['how'] = how
     d = fresh_dir('i')
     try:
-        r, free, fixed = pristine_results(kind, pool, boot, task.get('table'))
+        r, free, fixed = pristine_results(kind, pool, boot, task.get('table'), how)
         if thr is not None:
             # the same raw results as seen by a user working with a non-default identification threshold
             r = res.bioResults(r.data, identification_threshold=thr)
@@ -412,7 +466,7 @@ def _part_i(task, rec):
         try:
             fname = r.write_pickle()
         except Exception as e:
-            rec.case(('i', kind, pool, boot, 'write'), ('write raised', type(e).__name__), outcome='write-raised')
+            rec.case(('i', kind, pool, boot, how, 'write'), ('write raised', type(e).__name__), outcome='write-raised')
             rec.violation(f'C14|pickle-write-raises-{type(e).__name__}|{keytail}',
                           f'write_pickle raised {type(e).__name__}: {e}', case, observed=repr(e))
             return
@@ -423,12 +477,15 @@ def _part_i(task, rec):
         try:
             r2 = res.bioResults(pickle_file=fname, identification_threshold=r.identification_threshold)
         except Exception as e:
-            rec.case(('i', kind, pool, boot, 'read'), ('read raised', type(e).__name__), outcome='read-raised')
+            rec.case(('i', kind, pool, boot, how, 'read'), ('read raised', type(e).__name__), outcome='read-raised')
             rec.violation(f'C14|pickle-read-raises-{type(e).__name__}|{keytail}',
                           f'bioResults(pickle_file={fname!r}) of a file just written raised {type(e).__name__}: {e}',
                           case, observed=repr(e))
             return
-        compare_results(r, r2, 'pickle-roundtrip', rec, case, keytail)
+        compare_results(r, r2, 'pickle-roundtrip', rec, case, keytail, lenient=lenient)
+        if how != 'est':
+            # the re-read object is a results object of its own: its printed form lists every estimated parameter
+            _check_printed(r2, free, fixed, rec, case, f'how={how},re-read', ('i', kind, pool, boot, task.get('table'), how, thr_i))
         # second generation: the re-read object is written and read again
         try:
             fname2 = r2.write_pickle()
@@ -443,14 +500,18 @@ def _part_i(task, rec):
             return
         # file-name fields legitimately differ between generations
         r2.data.pickleFileName = r3.data.pickleFileName
-        compare_results(r2, r3, 'pickle-roundtrip-2nd', rec, case, keytail)
+        compare_results(r2, r3, 'pickle-roundtrip-2nd', rec, case, keytail, lenient=lenient)
     finally:
         leave_dir(d)
+    if how in NO_DERIVATIVES:
+        return   # quick_estimate() writes no file and recycles nothing
     # estimate() with pickle generation, then a *fresh* BIOGEME recycles it
     d = fresh_dir('i')
     try:
         b, free, fixed = make_model(kind, pool, boot, table=task.get('table'), generate_pickle=True,
                                     generate_html=bool(pool % 2), **cfg)
+        if how == 'null':
+            b.calculate_null_loglikelihood({1: 1, 2: 1})
         ra = estimate(b, boot)
         b2, _, _ = make_model(kind, pool, boot, table=task.get('table'), generate_pickle=True, generate_html=True,
                               **cfg)
@@ -825,20 +886,69 @@ def _num_eq(cell, want) -> bool:
         return False
 
 
+def _check_printed(r, free, fixed, rec, case, keytail, casekey, state='fresh'):
+    """Printed form (__str__): every estimated parameter on exactly one line 'name: value', no fixed parameter listed.
+    Returns True when the listing is complete."""
+    want3 = {n: fmt3(v) for n, v in r.get_beta_values().items()}
+    text = str(r)
+    ok = sorted(want3) == sorted(free)
+    for n in free:
+        lines = [ln for ln in text.split('\n') if ln.startswith(f'{n:15}: ')]
+        if len(lines) != 1 or n not in want3:
+            ok = False
+            continue
+        tok = lines[0][len(f'{n:15}: '):].split('[')[0]
+        ok = ok and _num_eq(tok, want3[n])
+    w = 'str' if state == 'fresh' else f'str[{state}]'
+    rec.case(casekey + (w,), (w, sha(text.encode())), outcome=(w, ok))
+    if not ok:
+        rec.violation(f'C14|report:__str__:listing|{keytail}',
+                      f'__str__: listing for a results object ({state}) with parameters {free}: {text!r:.400} vs {want3}',
+                      case, observed=f'{text!r:.400} vs {want3}')
+    for fx in fixed:
+        if any(ln.startswith(f'{fx:15}: ') for ln in text.split('\n')):
+            rec.violation(f'C14|report:__str__:fixed-parameter-listed-as-estimated|{keytail}',
+                          f'__str__: fixed parameter {fx} listed as estimated ({state})', case, observed=fx)
+    return ok
+
+
 def _part_iii(task, rec):
     kind, pool, boot = task['kind'], task['pool'], task['boot']
+    how = task.get('how') or 'est'
+    lenient = how in NO_DERIVATIVES
     case = dict(part='iii', kind=kind, pool=pool, boot=boot, table=task.get('table'))
-    r, free, fixed = pristine_results(kind, pool, boot, task.get('table'))
+    r, free, fixed = pristine_results(kind, pool, boot, task.get('table'), how)
     K = len(free)
     keytail = f'pool={pool}' if pool >= 2 else 'plain-names'
+    casekey = ('iii', kind, pool, boot, task.get('table'))
+    if how != 'est':
+        case['how'] = how
+        keytail += f',how={how}'
+        casekey += (how,)
     rec.sample(dict(case, free=free, fixed=fixed))
 
     def fail(writer, clause, detail):
         rec.violation(f'C14|report:{writer}:{clause}|{keytail}',
-                      f'{writer}: {clause} for model {kind} with parameters {free}: {detail}', case, observed=detail)
+                      f'{writer}: {clause} for model {kind} ({how}) with parameters {free}: {detail}', case, observed=detail)
 
     def one(writer, ok, obs):
-        rec.case(('iii', kind, pool, boot, task.get('table'), writer), (writer, obs), outcome=(writer, ok))
+        rec.case(casekey + (writer,), (writer, obs), outcome=(writer, ok))
+
+    class _Unavailable(Exception):
+        pass
+
+    def call(writer, thunk):
+        """A report that the library does not produce for a results object without derivatives (the writer raises)
+        is not a generated report: outside the statement, counted.  Every other results object: the exception is
+        not caught."""
+        if not lenient:
+            return thunk()
+        try:
+            return thunk()
+        except Exception as e:
+            rec.count(f'report_unavailable_without_derivatives:{writer.split("(")[0]}')
+            rec.case(None, (writer, 'unavailable', type(e).__name__), outcome=(writer, 'unavailable'))
+            raise _Unavailable() from None
 
     # the estimates themselves
     values = r.get_beta_values()
@@ -856,39 +966,47 @@ def _part_iii(task, rec):
         one(w, ok, [list(t.index), [bits(x) for x in t['Value']]])
         if not ok:
             fail('get_estimated_parameters', 'listing', f'index {list(t.index)} values {list(t["Value"])} vs {values}')
-        ses = {n: (t.loc[n, 'Rob. Std err'], None if only_robust else t.loc[n, 'Std err']) for n in free}
 
         w = f'html(only_robust={only_robust})'
-        parsed = parse_html_parameters(r.get_html(only_robust=only_robust))
-        if parsed is None:
-            one(w, False, 'no table')
-            fail('get_html', 'no-parameter-table', '')
-        else:
-            head, rows = parsed
-            got = sorted((c[0], c[1]) for c in rows)
-            ok = (len(rows) == K and sorted(c[0] for c in rows) == sorted(free)
-                  and all(_num_eq(c[1], want3[c[0]]) for c in rows) and head[:2] == ['Name', 'Value']
-                  and all(len(c) == len(head) for c in rows))
-            one(w, ok, got)
-            if not ok:
-                fail('get_html', 'listing', f'rows {got} vs {sorted(want3.items())}')
+        try:
+            parsed = parse_html_parameters(call(w, lambda: r.get_html(only_robust=only_robust)))
+            if parsed is None:
+                one(w, False, 'no table')
+                fail('get_html', 'no-parameter-table', '')
+            else:
+                head, rows = parsed
+                got = sorted((c[0], c[1]) for c in rows)
+                ok = (len(rows) == K and sorted(c[0] for c in rows) == sorted(free)
+                      and all(_num_eq(c[1], want3[c[0]]) for c in rows) and head[:2] == ['Name', 'Value']
+                      and all(len(c) == len(head) for c in rows))
+                one(w, ok, got)
+                if not ok:
+                    fail('get_html', 'listing', f'rows {got} vs {sorted(want3.items())}')
+        except _Unavailable:
+            pass
         w = f'latex(only_robust={only_robust})'
-        rows = parse_latex_parameters(r.get_latex(only_robust=only_robust))
-        if rows is None:
-            one(w, False, 'no table')
-            fail('get_latex', 'no-parameter-table', '')
-        else:
-            body = [c for c in rows if c[0] != '']
-            got = sorted((c[0], c[1]) for c in body)
-            ok = (len(body) == K and sorted(c[0] for c in body) == sorted(free)
-                  and all(_num_eq(c[1], want3[c[0]]) for c in body))
-            one(w, ok, got)
-            if not ok:
-                fail('get_latex', 'listing', f'rows {got} vs {sorted(want3.items())}')
+        try:
+            rows = parse_latex_parameters(call(w, lambda: r.get_latex(only_robust=only_robust)))
+            if rows is None:
+                one(w, False, 'no table')
+                fail('get_latex', 'no-parameter-table', '')
+            else:
+                body = [c for c in rows if c[0] != '']
+                got = sorted((c[0], c[1]) for c in body)
+                ok = (len(body) == K and sorted(c[0] for c in body) == sorted(free)
+                      and all(_num_eq(c[1], want3[c[0]]) for c in body))
+                one(w, ok, got)
+                if not ok:
+                    fail('get_latex', 'listing', f'rows {got} vs {sorted(want3.items())}')
+        except _Unavailable:
+            pass
     tall = r.get_estimated_parameters(only_robust=False)
     for robust in (True, False):
         w = f'f12(robust={robust})'
-        head, coef, end_ok, rest = parse_f12(r.get_f12(robust_std_err=robust))
+        try:
+            head, coef, end_ok, rest = parse_f12(call(w, lambda: r.get_f12(robust_std_err=robust)))
+        except _Unavailable:
+            continue
         col = 'Rob. Std err' if robust else 'Std err'
         order = list(tall.index)
         ok = end_ok and len(coef) == K
@@ -905,29 +1023,46 @@ def _part_iii(task, rec):
         if not ok:
             fail('get_f12', 'listing', f'coefficient lines {coef} end={end_ok} vs {values}')
     # printed form
-    text = str(r)
-    ok = True
-    for n in free:
-        lines = [ln for ln in text.split('\n') if ln.startswith(f'{n:15}: ')]
-        if len(lines) != 1:
-            ok = False
-            continue
-        tok = lines[0][len(f'{n:15}: '):].split('[')[0]
-        ok = ok and _num_eq(tok, want3[n])
-    one('str', ok, sha(text.encode()))
-    if not ok:
-        fail('__str__', 'listing', f'{text!r:.400} vs {want3}')
-    for fx in fixed:
-        if any(ln.startswith(f'{fx:15}: ') for ln in text.split('\n')):
-            fail('__str__', 'fixed-parameter-listed-as-estimated', fx)
-    ok = f'Nbr of parameters:\t\t{K}\n' in r.short_summary()
-    one('short_summary', ok, ok)
-    if not ok:
-        fail('short_summary', 'number-of-parameters', r.short_summary())
-    ok = f'Number of estimated parameters:\t{K}\n' in r.print_general_statistics()
-    one('print_general_statistics', ok, ok)
-    if not ok:
-        fail('print_general_statistics', 'number-of-parameters', r.print_general_statistics())
+    try:
+        call('str', lambda: str(r))
+        _check_printed(r, free, fixed, rec, case, keytail, casekey)
+    except _Unavailable:
+        pass
+    try:
+        text = call('short_summary', r.short_summary)
+        ok = f'Nbr of parameters:\t\t{K}\n' in text
+        one('short_summary', ok, ok)
+        if not ok:
+            fail('short_summary', 'number-of-parameters', text)
+    except _Unavailable:
+        pass
+    try:
+        text = call('print_general_statistics', r.print_general_statistics)
+        ok = f'Number of estimated parameters:\t{K}\n' in text
+        one('print_general_statistics', ok, ok)
+        if not ok:
+            fail('print_general_statistics', 'number-of-parameters', text)
+    except _Unavailable:
+        pass
+    # the same object after it has generated its output files (the file-name fields are then set and the printed form
+    # reports them): the listing must still be complete
+    d = fresh_dir('iii')
+    try:
+        wrote = []
+        for wname, wf in (('write_html', r.write_html), ('write_latex', r.write_latex), ('write_pickle', r.write_pickle),
+                          ('write_f12', r.write_f12)):
+            try:
+                call(wname, wf)
+                wrote.append(wname)
+            except _Unavailable:
+                pass
+        try:
+            call('str', lambda: str(r))
+            _check_printed(r, free, fixed, rec, case, keytail, casekey, state='after ' + '+'.join(wrote or ['nothing']))
+        except _Unavailable:
+            pass
+    finally:
+        leave_dir(d)
 
 
 # --------------------------------------------------------------------------- reference model of the directory
@@ -1673,6 +1808,373 @@ def _part_w(task, rec):
             failed.add(tuple(hist[:i + 1]))
 
 
+# --------------------------------------------------------------------------- part (L): long histories for one name
+# One directory, one output name, N successive outputs: the n-th output is generated while n-1 earlier outputs of
+# the same name (and extension) are present, for EVERY n = 1..N (N goes beyond the two-digit - and, thorough tier,
+# the three-digit - range of the ~NN numbering).  Oracle = the statement only: every name handed out / reported did
+# not exist before, every earlier entry is untouched (type, size, inode, modification time at every step; content
+# hash at the boundary lengths and at the end), the new entries are exactly the reported ones; at the boundary
+# lengths the new file reads back and estimate(recycle=True) returns the results written last.
+L_CHEAP = ['name', 'pickle', 'html', 'latex', 'f12', 'dump', 'all', 'backup_copy', 'backup_rename']
+L_COSTLY = ['est_hp', 'est_p', 'validate']      # real call at the boundary lengths, the naming function in between
+L_PATTERNS = ['files', 'kinds', 'holes', 'two-models']
+L_OLD = 1.6e9                                   # earlier outputs are old, in the order of their creation
+
+
+def l_bound(tier):
+    return 135 if tier == 'quick' else 1100
+
+
+def l_boundaries(n, thin=False):
+    """History lengths (number of earlier outputs) at which the costly entry points run / contents are re-hashed."""
+    out = set()
+    centres = (1, 10, 100, 101, 110, 128, 200, 256, 1000, 1001, 1010, 1024) if not thin else (1, 100, 101, 1000, 1001)
+    for c in centres:
+        out.update((c - 1, c, c + 1))
+    out.add(n - 1)
+    return sorted(k for k in out if 0 <= k < n)
+
+
+def len_class(k):
+    return '<100' if k < 100 else ('100..999' if k < 1000 else '>=1000')
+
+
+class LongHistory:
+    def __init__(self, entry, name, ext, pattern):
+        _setup()
+        import pandas as pd
+        import biogeme.database as db
+        self.entry, self.name, self.ext, self.pattern = entry, name, ext, pattern
+        self.dir = fresh_dir('L')
+        self.known = {}     # reference model of the directory: entry name -> [kind, content hash / link target, lstat signature]
+        self.order = []     # creation order
+        self.clock = 0
+        self.r = self.b = self.db = None
+        if entry in ('pickle', 'html', 'latex', 'f12', 'all', 'est_hp', 'est_p', 'validate'):
+            self.r, self.free, _ = pristine_results(HKIND, HPOOL, 0)
+            self.r.data.modelName = name
+        if entry in ('dump', 'all'):
+            self.db = db.Database(name, pd.DataFrame(TABLE))
+        if entry in L_COSTLY:
+            self.b, _, _ = make_model(HKIND, HPOOL, 0, model_name=name)
+        if entry == 'validate':
+            with open('biogeme.toml', 'w') as f:
+                f.write(MINIMAL_TOML)
+            self._register('biogeme.toml')
+        if entry.startswith('backup'):
+            with open(f'{name}.{ext}', 'w') as f:
+                f.write('current output 0\n')
+            self._register(f'{name}.{ext}')
+
+    def close(self):
+        leave_dir(self.dir)
+
+    # -- reference model ----------------------------------------------------------
+    @staticmethod
+    def _sig(fn):
+        st = os.lstat(fn)
+        return (st.st_mode, st.st_size if not os.path.isdir(fn) or os.path.islink(fn) else 0, st.st_ino, st.st_mtime_ns)
+
+    def _register(self, fn):
+        """A new entry joins the reference model; it is made older than everything that follows."""
+        self.clock += 1
+        if os.path.islink(fn):
+            kind, content = 'link', os.readlink(fn)
+        elif os.path.isdir(fn):
+            kind, content = 'dir', sha(repr(sorted(snapshot(fn).items())).encode())
+            os.utime(fn, (L_OLD + self.clock, L_OLD + self.clock))
+        else:
+            with open(fn, 'rb') as f:
+                kind, content = 'file', sha(f.read())
+            os.utime(fn, (L_OLD + self.clock, L_OLD + self.clock))
+        self.known[fn] = [kind, content, self._sig(fn)]
+        self.order.append(fn)
+
+    def _forget(self, fn):
+        import shutil
+        if os.path.isdir(fn) and not os.path.islink(fn):
+            shutil.rmtree(fn)
+        else:
+            os.remove(fn)
+        del self.known[fn]
+
+    def verify(self, full):
+        """None or (clause, detail): the directory against the reference model."""
+        names = set(os.listdir('.'))
+        gone = sorted(set(self.known) - names)
+        if gone:
+            return ('existing-entry-changed', f'{gone[:3]} vanished')
+        extra = sorted(n for n in names - set(self.known) if not (n.startswith('__') and n.endswith('.iter')))
+        if extra:
+            return ('unreported-entry-created', f'{extra[:3]} appeared')
+        for fn, (kind, content, sig) in self.known.items():
+            if self._sig(fn) != sig:
+                return ('existing-entry-changed', f'{fn!r} ({kind}) was {sig}, is {self._sig(fn)}')
+        if full:
+            snap = snapshot()
+            for fn, (kind, content, sig) in self.known.items():
+                if snap.get(fn) != (kind, content):
+                    return ('existing-entry-changed', f'{fn!r} was {(kind, content)}, is {snap.get(fn)}')
+        return None
+
+    # -- steps --------------------------------------------------------------------
+    def families(self):
+        n = self.name
+        return dict(name=[(n, self.ext)], pickle=[(n, 'pickle')], html=[(n, 'html')], latex=[(n, 'tex')], f12=[(n, 'F12')],
+                    dump=[(f'{n}_dumped', 'dat')],
+                    all=[(n, 'pickle'), (n, 'html'), (n, 'tex'), (n, 'F12'), (f'{n}_dumped', 'dat')],
+                    est_hp=[(n, 'html'), (n, 'pickle')], est_p=[(n, 'pickle')],
+                    validate=[(f'{n}_val_est_1', 'html'), (f'{n}_val_est_1', 'pickle'), (f'{n}_validation', 'pickle')]
+                    ).get(self.entry, [])
+
+    def touch(self, k, stem, ext):
+        """One output through the naming function alone: the name the library chooses, the entry created here."""
+        import biogeme.filenames as bf
+        nm = bf.get_new_file_name(stem, ext)
+        if nm in self.known or os.path.lexists(nm):
+            kind = self.known.get(nm, ['entry'])[0]
+            return ('new-file-name-exists', f'get_new_file_name({stem!r}, {ext!r}) returned {nm!r}, which exists as a {kind} '
+                                            f'({k} earlier outputs of that name)')
+        kind = 'file'
+        if self.pattern == 'kinds':
+            kind = 'dir' if k % 7 == 3 else ('link' if k % 11 == 5 else 'file')
+        if kind == 'file':
+            with open(nm, 'w') as f:
+                f.write(f'earlier output {k} of {stem}.{ext}\n')
+        elif kind == 'dir':
+            os.mkdir(nm)
+            with open(os.path.join(nm, 'inside.txt'), 'w') as f:
+                f.write(f'keep me {k}\n')
+        else:
+            os.symlink(f'nowhere_{k}', nm)
+        self._register(nm)
+        return None
+
+    def real(self, k, entry):
+        """One output through a real entry point.  None or (clause, detail)."""
+        import biogeme.filenames as bf
+        import biogeme.database as db
+        from biogeme.tools.files import create_backup
+        before = set(self.known)
+        handed = []
+        real_new_name = bf.get_new_file_name
+
+        def spy(name, ext):
+            out = real_new_name(name, ext)
+            handed.append(out)
+            return out
+
+        r, reported, res_obj, removed = self.r, None, None, set()
+        bf.get_new_file_name = spy
+        try:
+            if entry == 'pickle':
+                import copy
+                r.data.userNotes = f'written as output {k}'
+                reported = [r.write_pickle()]
+                self.pickled = copy.deepcopy(dict(vars(r.data)))    # what the file has to hold
+            elif entry == 'html':
+                r.write_html()
+                reported = [r.data.htmlFileName]
+            elif entry == 'latex':
+                r.write_latex()
+                reported = [r.data.latexFileName]
+            elif entry == 'f12':
+                r.write_f12()
+                reported = [r.data.F12FileName]
+            elif entry == 'dump':
+                reported = [self.db.dump_on_file()]
+            elif entry in ('est_hp', 'est_p'):
+                b = self.b
+                b.generate_html, b.generate_pickle = entry == 'est_hp', True
+                b.user_notes = f'estimated as output {k}'
+                try:
+                    res_obj = estimate(b)
+                finally:
+                    b.generate_html = b.generate_pickle = False
+                reported = ([res_obj.data.htmlFileName] if entry == 'est_hp' else []) + [res_obj.data.pickleFileName]
+            elif entry == 'validate':
+                b = self.b
+                df = b.database.data
+                vd = [db.EstimationValidation(estimation=df.iloc[3:], validation=df.iloc[:3])]
+                b.generate_pickle = True
+                try:
+                    b.validate(self.r, vd)
+                finally:
+                    b.generate_pickle = False
+            elif entry in ('backup_copy', 'backup_rename'):
+                reported = [create_backup(f'{self.name}.{self.ext}', rename=entry == 'backup_rename')]
+                if entry == 'backup_rename':
+                    removed = {f'{self.name}.{self.ext}'}
+            else:
+                raise ValueError(entry)
+        except Exception as e:
+            if isinstance(e, ValueError) and str(e) == entry:
+                raise
+            for nm in handed:
+                if nm in before:
+                    return ('new-file-name-exists', f'{entry}: get_new_file_name handed out {nm!r}, which exists; the step '
+                                                    f'then raised {type(e).__name__}')
+            return (f'raises-{type(e).__name__}', f'{entry} raised {type(e).__name__}: {str(e).splitlines()[0][:80] if str(e) else ""}')
+        finally:
+            bf.get_new_file_name = real_new_name
+        for nm in handed:
+            if nm in before:
+                return ('new-file-name-exists', f'{entry}: get_new_file_name handed out {nm!r}, which exists as a '
+                                                f'{self.known[nm][0]} ({k} earlier outputs)')
+        for nm in reported or []:
+            if nm in before:
+                return ('reported-name-existed', f'{entry} reported {nm!r}, which existed before as a {self.known[nm][0]} '
+                                                 f'({k} earlier outputs)')
+        original = None
+        if removed:
+            (orig,) = removed
+            original = self.known[orig][:2]
+            if os.path.lexists(orig):
+                return ('backup-rename-left-the-original', f'{orig!r} still exists')
+            del self.known[orig]
+        names = set(os.listdir('.'))
+        created = sorted(n for n in names - set(self.known) if not (n.startswith('__') and n.endswith('.iter')))
+        want = sorted(reported if reported is not None else handed)
+        if created != want:
+            return ('reported-names-differ-from-created', f'{entry} reported {want}, created {created} ({k} earlier outputs)')
+        for nm in created:
+            if os.path.islink(nm) or not os.path.isfile(nm):
+                return ('reported-name-not-written', f'{nm!r} is not a regular file')
+            self._register(nm)
+        if entry.startswith('backup'):
+            src = original if original is not None else self.known[f'{self.name}.{self.ext}'][:2]
+            if self.known[reported[0]][:2] != src:
+                return ('backup-differs-from-original', f'{reported[0]!r} holds {self.known[reported[0]][:2]}, the original {src}')
+            if removed:
+                with open(f'{self.name}.{self.ext}', 'w') as f:
+                    f.write(f'current output {k + 1}\n')
+                self._register(f'{self.name}.{self.ext}')
+        self.last_obj = res_obj
+        return None
+
+    def read_back(self, k, entry):
+        """Boundary lengths: the pickle written last reads back and is the one estimate(recycle=True) returns."""
+        import biogeme.results as res
+        if entry not in ('pickle', 'est_hp', 'est_p', 'all'):
+            return None
+        src = self.r if entry in ('pickle', 'all') else self.last_obj
+        fn = src.data.pickleFileName
+        try:
+            back = res.bioResults(pickle_file=fn, identification_threshold=src.identification_threshold)
+        except Exception as e:
+            return ('pickle-unreadable', f'{fn}: {type(e).__name__}: {e}')
+        d = deep_diff(self.pickled if entry in ('pickle', 'all') else dict(vars(src.data)), dict(vars(back.data)), 'data')
+        if d:
+            return ('pickle-differs', f'{fn}: {d}')
+        if self.pattern == 'kinds':
+            # directories / dangling links carry names of the model's pickles: recycling is outside the statement there
+            # (same exclusion as in part (iv)); elsewhere every earlier entry is older than the file written last
+            return None
+        if self.b is None:
+            self.b, _, _ = make_model(HKIND, HPOOL, 0, model_name=self.name)
+        before = self.verify(full=False)
+        if before:
+            return before
+        try:
+            got = estimate(self.b, recycle=True)
+        except Exception as e:
+            return (f'recycle-raises-{type(e).__name__}', f'estimate(recycle=True) with {k + 1} pickles: {str(e)[:80]}')
+        if got.data.userNotes != src.data.userNotes or [bits(v) for v in got.data.betaValues] != [bits(v) for v in src.data.betaValues]:
+            return ('recycle-not-the-latest-results', f'estimate(recycle=True) returned the results noted '
+                                                      f'{got.data.userNotes!r} instead of the most recent {fn!r} '
+                                                      f'({src.data.userNotes!r}); {k + 1} pickles of the model present')
+        return self.verify(full=False)
+
+    def step(self, k, boundary):
+        """The (k+1)-th output of the name.  None or (clause, detail)."""
+        entry = self.entry
+        if self.pattern == 'holes' and k % 10 == 9:
+            # the user deletes an earlier output; the names of the others stay taken
+            victim = self.order[(k // 2) % len(self.order)]
+            if victim in self.known and victim not in ('biogeme.toml', f'{self.name}.{self.ext}'):
+                self._forget(victim)
+        if entry == 'name':
+            bad = self.touch(k, self.name, self.ext)
+            if not bad and self.pattern == 'two-models':
+                # a second model whose name is the first numbered name of this one writes into the same directory
+                bad = self.touch(k, f'{self.name}~00', self.ext)
+        elif entry == 'all':
+            bad = None
+            for e in W_OPS:
+                bad = bad or self.real(k, e)
+        elif entry in L_COSTLY and not boundary:
+            bad = None
+            for stem, ext in self.families():
+                bad = bad or self.touch(k, stem, ext)
+        else:
+            bad = self.real(k, entry)
+        if bad:
+            return bad
+        bad = self.verify(full=boundary)
+        if not bad and boundary:
+            bad = self.read_back(k, entry)
+        return bad
+
+
+def _l_violation(rec, task, k, bad):
+    clause, detail = bad
+    rec.violation(f'C14|long-history:{clause}|entry={task["entry"]},earlier-outputs={len_class(k)}',
+                  f'{clause} at output number {k + 1} of the name {task["name"]!r} in one directory (entry point '
+                  f'{task["entry"]}, pattern {task["pattern"]}): {detail}',
+                  dict(part='L', entry=task['entry'], name=task['name'], ext=task['ext'], pattern=task['pattern'],
+                       n=task['n'], upto=k + 1, thin=bool(task.get('thin'))), observed=detail)
+
+
+def run_long_history(task, rec=None):
+    """Outputs 1..n of one name in one directory (replay: 1..upto, same boundary lengths); returns (index of the
+    failing output, failure) or (None, None)."""
+    n = task['n']
+    bset = set(l_boundaries(n, thin=bool(task.get('thin'))))
+    h = LongHistory(task['entry'], task['name'], task['ext'], task['pattern'])
+    try:
+        for k in range(task.get('upto') or n):
+            boundary = k in bset
+            bad = h.step(k, boundary)
+            if rec is not None:
+                real = task['entry'] not in L_COSTLY or boundary
+                rec.case(('L', task['entry'], task['name'], task['ext'], task['pattern'], k) if k else None,
+                         ('L', k, h.order[-1] if h.order else None, bad[0] if bad else None),
+                         outcome=('L', task['entry'] if real else 'name', len_class(k), bad[0] if bad else 'ok'))
+                rec.count('long_history_outputs')
+                if bad:
+                    _l_violation(rec, task, k, bad)
+            if bad:
+                return k, bad
+        return None, None
+    finally:
+        h.close()
+
+
+def _part_l(task, rec):
+    rec.sample(dict(part='L', entry=task['entry'], name=task['name'], ext=task['ext'], pattern=task['pattern'], n=task['n'],
+                    boundaries=l_boundaries(task['n'], thin=bool(task.get('thin')))))
+    run_long_history(task, rec)
+
+
+def l_tasks(tier):
+    n = l_bound(tier)
+    names = [MODEL_NAME, 'm~00', 'my model', 'a.b'] if tier == 'quick' else list(dict.fromkeys([MODEL_NAME] + W_NAMES))
+    t = []
+    for ext in ('html', 'pickle', 'tex', 'F12', 'dat'):
+        for pattern in L_PATTERNS:
+            for name in (names if pattern == 'files' else names[:2]):
+                t.append(dict(part='L', entry='name', name=name, ext=ext, pattern=pattern, n=n))
+    for entry in L_CHEAP[1:]:
+        for pattern in ('files', 'holes'):
+            for name in (names[:2] if tier == 'quick' or pattern == 'holes' else names[:4]):
+                t.append(dict(part='L', entry=entry, name=name, ext='html', pattern=pattern, n=n))
+    for entry in L_COSTLY:
+        for pattern in (('files',) if tier == 'quick' else ('files', 'kinds')):
+            t.append(dict(part='L', entry=entry, name=MODEL_NAME, ext='pickle', pattern=pattern, n=n,
+                          thin=tier == 'quick' and entry == 'validate'))
+    return t
+
+
 # --------------------------------------------------------------------------- part (p): histories on one Parameters object
 P_READS = ['read:first', 'read:last', 'read:partial']
 PARTIAL_TOML = '# hand written, partial\n[Unknown]\nfoo = 1\n[{s1}]\n{n1} = {v1}\n[{s2}]\n{n2} = "{v2}"\n'
@@ -1921,6 +2423,16 @@ def tasks(tier, seed):
             if tier == 'quick' and s['boot']:
                 continue
             t.append(dict(part='i', thr=thr, **s))
+    # (i) and (iii) for the other kinds of results objects: without derivatives (quick_estimate, also with a
+    # bootstrap matrix left by an earlier estimate) and with the null-model statistics
+    for s in _result_specs(tier):
+        for how in HOWS[1:]:
+            if (how == 'quickboot') != bool(s['boot']):
+                continue
+            if how == 'null' and tier == 'quick' and (s['boot'] or s['pool'] % 2):
+                continue
+            t.append(dict(part='iii', how=how, **s))
+            t.append(dict(part='i', how=how, **s))
     # (p) histories on one Parameters object
     ops = p_ops()
     for pre in itertools.product(ops, repeat=1 if tier == 'quick' else 2):
@@ -1934,6 +2446,8 @@ def tasks(tier, seed):
             else:
                 for first in W_OPS:
                     t.append(dict(part='w', name=name, root=root, depth=w_depth(tier), first=first))
+    # (L) long histories of one name in one directory
+    t.extend(l_tasks(tier))
     return t
 
 
@@ -1953,6 +2467,8 @@ def run_task(task):
         _part_w(task, rec)
     elif part == 'p':
         _part_p(task, rec)
+    elif part == 'L':
+        _part_l(task, rec)
     else:
         raise ValueError(part)
     return rec.result()
@@ -1983,6 +2499,10 @@ def replay(case):
         i, bad = run_param_history(case['history'])
         if bad and bad != 'skip':
             _p_violation(rec, case['history'][: i + 1], bad)
+    elif part == 'L':
+        k, bad = run_long_history(case)
+        if bad:
+            _l_violation(rec, case, k, bad)
     elif part == 'iv':
         h, i, bad = run_history(case['root'], case['history'])
         try:
